@@ -7,6 +7,7 @@ import numpy as np
 from .. import env  # noqa: F401
 from ..core import Phase, Result
 from .. import spans, snapshot
+from ..represent import Rep, tapes
 from ..util import attempt, dec_float, enc_float, same_array
 
 import fsic
@@ -411,7 +412,10 @@ def check_eval(case):
         warnings.simplefilter(mode)
         expected = attempt(ref_eval, expr, scope, labs, kind)
     extra = {} if custom is None else {'builtins': custom}
-    got = attempt(c.eval, text, locals=None if user_locals is None else dict(user_locals), warnings_=mode, **extra)
+    rep = Rep(case.get('rep'))
+    # (caller locals may be any mapping: a read-only proxy, a ChainMap, a UserDict)
+    got = attempt(c.eval, text, locals=None if user_locals is None else rep.mapping(user_locals), warnings_=mode, **extra)
+    rep.tag(res)
 
     cls = ('mixed' if {'label', 'positional'} <= feats else
            'label' if 'label' in feats else 'positional' if 'positional' in feats else 'plain')
@@ -529,6 +533,8 @@ def eval_strategy(max_len):
                 'warnings': draw(st.sampled_from(['ignore', 'ignore', 'error', 'always']))}
         if draw(st.integers(0, 5)) == 0:
             case['builtins'] = draw(st.sampled_from(['empty', 'swapped', 'shadowed']))
+        if user_locals is not None:
+            case['rep'] = draw(tapes(1))
         return case
 
     return cases()
